@@ -44,6 +44,20 @@ def run(ctx):
                       lambda k, i: enc(suites.is_autoenc(hprogs[i])) + " " + houts[k][i],
                       lambda k, i: {"program": repr(hprogs[i])[:300], "impl": houts[k][i][:1000]})
 
+    # integers of any size are documented query values (rendered by str()); the extracted model's protocol holds
+    # machine integers only, so these go to the implementation alone
+    big = [2 ** 1024, 10 ** 400, -(10 ** 400), 2 ** 70, -(2 ** 63) - 1, 10 ** 308, 10 ** 309]
+    nprogs = []
+    for n in big:
+        for name in ("with_query", "update_query", "extend_query"):
+            nprogs.append([["push", ["url", "http://h/p?a=1"]], ["op", name, ["map", ["k", n]]]])
+            nprogs.append([["push", ["url", "http://h/p?a=1"]], ["op", name, ["seq", ["k", n], ["j", ["list", n, 1]]]]])
+        nprogs.append([["push", ["build", "http", "", None, None, "h", None, "/p", ["map", ["k", n]], "", "", False]]])
+    nouts = core.check_suite(ctx, "C19-big-integers-impl-only", [("observe", [2, p]) for p in nprogs], kinds=("py", "c"), compare=False)
+    suites.apply_pred(ctx, "C19-big-integers-impl-only", "c19_pred", nouts,
+                      lambda k, i: enc(True) + " " + nouts[k][i],
+                      lambda k, i: {"program": repr(nprogs[i])[:300], "impl": nouts[k][i][:600]})
+
     # the public cache entry points, after cache_configure() with every documented kind of size
     sizes = [None, 0, 1, 2, 256, 100000]
     creqs = [("cache_api_probe", [[a, b, c], t]) for a in sizes for b in sizes for c in sizes
